@@ -198,6 +198,12 @@ func ruleTabPriority(c *Ctx, r *R) {
 						}
 						continue
 					}
+					// the hoisted path may exclude struct and interface definitions only
+					for _, m := range regexp.MustCompile(`E\.Tokens\[1\]\.Symbol != "([^"]+)"`).FindAllStringSubmatch(condStrings(rp), -1) {
+						if m[1] != "struct" && m[1] != "interface" && !strings.HasPrefix(condStrings(rp), "!") {
+							notHoisted = append(notHoisted, m[1])
+						}
+					}
 					// a folded constant under E.Symbol == "kind" (the table is a package-level literal)
 					if kc, isConst := linOf(rp.Ret[0]).isConst(); isConst {
 						if km := regexp.MustCompile(`\(E\.Symbol == "(\w+)"\)`).FindStringSubmatch(condStrings(rp)); km != nil && !strings.HasPrefix(condStrings(rp), "!") {
